@@ -323,7 +323,15 @@ pub fn gen_history(r: &mut Rng) -> Gen {
         }
         // (rarely: digests around 128 and 256 bytes, i.e. 256 and 512 hex digits)
         let len = if r.chance(1, 12) { *r.pick(&[127usize, 128, 129, 200, 255, 256, 257, 1000]) } else { *r.pick(&[0usize, 1, 2, 4, 16, 20, 32, 64]) };
-        entries.push((a, (0..len).map(|_| r.below(256) as u8).collect()));
+        // (one digest in fifteen is a byte string that itself reads as hex text of a usual
+        // size: it is bytes all the same and must come back as given)
+        let bytes: Vec<u8> = if r.chance(1, 15) {
+            let n = *r.pick(&[32usize, 40, 64, 96, 128]);
+            (0..n).map(|_| *r.pick(b"0123456789abcdefABCDEF")).collect()
+        } else {
+            (0..len).map(|_| r.below(256) as u8).collect()
+        };
+        entries.push((a, bytes));
     }
     // siblings: names that share a long prefix with a name already drawn and differ in the
     // last character only, with the common prefix ending inside a multi-byte character at
